@@ -225,7 +225,7 @@ func (s *sys) Ops() []string {
 	wr := []string{"-", "X", "YZ", "PQRST"}
 	wa := []string{"x", "yz", "pqrst"}
 	rd := []int{0, 1, c, 2*c + 1}
-	if s.thorough {
+	if s.thorough && s.maxDepth <= 3 {
 		wr = append(wr, "ABCDEFGHI")
 		wa = append(wa, "abcdefghi")
 	}
@@ -283,6 +283,21 @@ func (s *sys) dagFeatures() []string {
 			out[1] = fmt.Sprint(branchInline(s.ds, nd))
 		}
 	})
+	return out
+}
+
+// missing lists the links below n that the DAG service cannot resolve.
+func missing(ds ipld.DAGService, n ipld.Node) []string {
+	out := []string{}
+	for _, l := range n.Links() {
+		ch, err := l.GetNode(context.Background(), ds)
+		if err != nil {
+			p := l.Cid.Prefix()
+			out = append(out, fmt.Sprintf("%s(v%d codec=%#x mh=%#x)", l.Cid, p.Version, p.Codec, p.MhType))
+			continue
+		}
+		out = append(out, missing(ds, ch)...)
+	}
 	return out
 }
 
@@ -366,21 +381,31 @@ func (s *sys) hazard(kind string, pre mod.VerifC10State, b []byte, off int64) st
 	return "none"
 }
 
-// wedged reports the case in which Read must not be executed because the
-// open reader's Walker would spin forever (see uio.VerifC10ReaderWedge): Sync
-// keeps the reader when nothing is pending, so dm.Read goes straight into
-// dagReader.CtxReadFull -> Walker.Iterate.
+// wedged reports the case in which Read must not be executed because it would
+// never return. Sync keeps the open reader when nothing is pending, so dm.Read
+// goes straight into dagReader.CtxReadFull: it first drains the loaded leaf
+// buffer and, if that does not fill the caller's buffer (or there is none),
+// enters Walker.Iterate, which delivers the leaves still unvisited below the
+// wedged level and then climbs to that level, where it spins (see
+// uio.VerifC10ReaderWedge). The call is predicted to hang exactly when the
+// request cannot be satisfied before that climb; otherwise it is executed.
 func (s *sys) wedged(pre mod.VerifC10State, n int, feat []string, ctx string) *eng.Violation {
 	if !pre.ReaderOpen || pre.HasBuf || pre.WedgeLevel < 0 {
 		return nil
 	}
-	kind := "ancestor-level"
-	if pre.WedgeLevel == pre.WalkerDepth && !(pre.BufLeft >= 0 && pre.BufLeft >= n) {
-		kind = "active-level"
+	if pre.BufLeft >= 0 && n <= pre.BufLeft {
+		return nil // served from the loaded leaf
+	}
+	need := uint64(n)
+	if pre.BufLeft > 0 {
+		need -= uint64(pre.BufLeft)
+	}
+	if pre.WedgeBelow > 0 && need <= pre.WedgeBelow {
+		return nil // Iterate pauses before it climbs to the wedged level
 	}
 	theRun.Add("execs_read_on_wedged_walker", 1)
-	return s.viol("read-never-returns", "Read", fmt.Sprintf("Read(len %d) not executed: the open reader's Walker has childIndex > ChildTotal at level %d (walker depth %d) because the root node it holds was shrunk in place; Walker.NextChild then returns nil without advancing and Walker.Iterate loops forever (%s)", n, pre.WedgeLevel, pre.WalkerDepth, kind)+ctx,
-		append(append([]string{}, feat...), "walker_wedged", kind))
+	return s.viol("read-never-returns", "Read", fmt.Sprintf("Read(len %d) not executed: the kept reader's Walker has childIndex > ChildTotal at level %d (walker depth %d, %d bytes left in the loaded leaf, %d bytes in unvisited leaves below that level) because the root node it holds was shrunk in place by Truncate; the request cannot be filled before Walker.Iterate climbs to that level, where NextChild returns nil without advancing and Iterate loops forever", n, pre.WedgeLevel, pre.WalkerDepth, pre.BufLeft, pre.WedgeBelow)+ctx,
+		append(append([]string{}, feat...), "walker_wedged", "true"))
 }
 
 func ok2(wh int) bool { return wh >= 0 && wh <= 2 }
@@ -391,6 +416,9 @@ func errClass(err error) string {
 	}
 	if strings.Contains(err.Error(), "digest too large") {
 		return "identity-digest-too-large"
+	}
+	if strings.Contains(err.Error(), "failed to fetch all nodes") {
+		return "unresolvable-link"
 	}
 	return "other"
 }
@@ -491,6 +519,11 @@ func (s *sys) Do(op string) (obs string, v *eng.Violation) {
 			feat[1] = "seek-end-offset-subtracted"
 		case ok2(wh) && abs < 0 && post.CurWrOff == uint64(abs):
 			feat[1] = "negative-position-stored"
+		}
+		if feat[1] == "none" && pre.ReaderOpen && !pre.HasBuf && s.readerStale {
+			// dm.Seek forwards (offset, whence) to the kept reader, whose size and
+			// offset predate the last change of the DAG
+			feat[1] = "seek-forwarded-to-reader-predating-dag-change"
 		}
 		theRun.Add("execs_hazard_"+feat[1], 1)
 		feat = append(feat, "error_class", errClass(err))
@@ -639,7 +672,10 @@ func (s *sys) Check() (v *eng.Violation) {
 	}
 	if s.curKnown && s.cur <= S {
 		off, err := s.dm.Seek(0, io.SeekCurrent)
-		if err != nil || off != s.cur {
+		if err != nil {
+			return s.viol("unexpected-error", "Seek", fmt.Sprintf("Seek(0,SeekCurrent) (flushes the pending write): %v", err)+state, append(feat, "error_class", errClass(err)))
+		}
+		if off != s.cur {
 			return s.viol("cursor-mismatch", "", fmt.Sprintf("Seek(0,SeekCurrent)=%d,%v; the file model's cursor is %d", off, err, s.cur)+state, feat)
 		}
 	}
@@ -655,7 +691,7 @@ func (s *sys) Check() (v *eng.Violation) {
 	}
 	got, err := io.ReadAll(rd)
 	if err != nil {
-		return s.viol("unexpected-error", "GetNode", fmt.Sprintf("reading GetNode(): %v", err)+state, feat)
+		return s.viol("unexpected-error", "GetNode", fmt.Sprintf("reading GetNode(): %v; unresolvable links: %v", err, missing(s.ds, nd))+state, append(feat, "error_class", errClass(err)))
 	}
 	sz2, _ := s.dm.Size()
 	if sz != S || sz2 != S || rd.Size() != uint64(S) || !bytes.Equal(got, s.data) {
@@ -733,20 +769,17 @@ func spec(r *eng.Run) eng.SeqSpec {
 		add("trickle10-pb", 3, 8, 3)
 	} else {
 		for _, f := range []string{"empty-pb", "raw6", "inline6-pb", "trickle10-pb", "trickle10-raw", "trickle10-ident", "balanced14-pb"} {
-			for _, l := range []int{2, 3} {
-				for _, wb := range []int{0, 8} {
-					add(f, l, wb, 3)
-				}
-			}
+			add(f, 2, 0, 3)
+			add(f, 3, 8, 3)
 		}
+		add("trickle10-pb", 2, 8, 3)
+		add("trickle10-raw", 3, 0, 3)
 		c := "file=trickle4k-raw,links=8,wb=64,chunk=512,d=3"
 		cfgs = append(cfgs, c)
 		depths[c] = 3
-		// one level deeper on four configurations, last so that a budget cut hits these
-		add("empty-pb", 2, 0, 4)
-		add("trickle10-raw", 2, 8, 4)
-		add("raw6", 3, 0, 4)
-		add("trickle10-pb", 3, 0, 4)
+		// one level deeper (with the quick alphabet) on one configuration, last
+		// so that a budget cut hits this one
+		add("trickle10-pb", 2, 8, 4)
 		maxd = 4
 	}
 	r.Set("depth_bound_per_config", depths)
